@@ -2,6 +2,7 @@ import Dmn.Model.Sexp
 import Dmn.Model.Json
 import Dmn.Model.ServerModel
 import Dmn.Model.Dto
+import Dmn.Model.DtoJson
 
 /-!
 Driver handler for C18.
@@ -11,6 +12,10 @@ Driver handler for C18.
 * `(c18 serve <req>…)` → `((model <resp>…))` — the answers of the handler model, each
   `(<kind> (s body…) <json> <decodes?>)`.
 
+* `(c18 wire <json> (<kind> (s text) (s canonical)|none)…)` → `((read ok|invalidType|(missingField (s …))|(duplicateField (s …)))
+  (back <tv>|none) (answer <json>|none) (body (s …)|none))`: a `ValueDto` document as a client writes it, through the
+  model of the derived `Deserialize` (`Dto.readValue`), the conversion (`fromDto`) and back (`toOutput`, `tckBody`).
+* `(c18 render <json>)` → `((text (s …)) (decoded <json>|none))`: `serde_json`'s compact writer.
 * `(c18 dto <tv> (<kind> (s text) (s canonical)|none)…)` → `((dto <json>) (back <tv>|none) (backdto <json>|none) (canonical b))`:
   the DTO of a typed value as `serde_json` writes it, and what reading it back gives; the
   table lists what the text readers answer (computed by the harness in-process).
@@ -19,7 +24,10 @@ Driver handler for C18.
 `<jv>` = `(null)` `(b true)` `(n (s …))` `(str (s …))` `(l <jv>…)` `(c ((s …) <jv>)…)` `(o (s …))`;
 `<json>` = `null` `(b true)` `(n (s …))` `(str (s …))` `(arr …)` `(obj ((s …) <json>)…)`.
 `<req>` = `(add <content>)` `(replace <content>)` `(remove <ns?> <name?>)` `clear` `deploy`
-`(eval <model> <invocable> ok|bad <jv>)` with `<content>` = `none` | `b64` | `utf8` | `xml` |
+`(eval <model> <invocable> ok|bad <jv>)`, `(tck <model?> <invocable?> none|bad)`,
+`(tck <model?> <invocable?> (ok <tv> echo|<tv>) (<kind> (s text) (s canonical)|none)…)` (a TCK request whose one input
+node `x` carries the DTO of `<tv>`; the rows are what the text readers answer; the deployed invocable answers the
+value read for `x` (`echo`) or the given value) with `<content>` = `none` | `b64` | `utf8` | `xml` |
 `(m ns name builds)` and `<ns?>` = `none` | atom | `(s …)` (names with white space are sent as `(s …)`).
 -/
 
@@ -85,46 +93,6 @@ def optAtom : Sexp → Option (Option String)
   | .atom a => some (some a)
   | x => (Sexp.str? x).map some
 
-/-- The evaluator oracle of the driver: the request carries the value a deployed model
-answers (computed by the harness from the alphabet: literal decision, echo decision,
-unknown invocable). -/
-def reqOf : Sexp → Option (Request JV)
-  | .atom "clear" => some .clear
-  | .atom "deploy" => some .deploy
-  | .list [.atom "add", c] => (contentOf c).map .add
-  | .list [.atom "replace", c] => (contentOf c).map .replace
-  | .list [.atom "remove", ns, name] => do
-    let ns ← optAtom ns
-    let name ← optAtom name
-    pure (.remove ns name)
-  | .list [.atom "eval", m, i, .atom ok, v] => do
-    let m ← optAtom m
-    let i ← optAtom i
-    let v ← jvOf v
-    pure (.evaluate m i (if ok == "ok" then .ok v else .error "input".toList))
-  | _ => none
-
-def errKind : Err → String
-  | .missingParameter _ => "missingParameter"
-  | .invalidBase64 => "invalidBase64"
-  | .invalidUtf8 => "invalidUtf8"
-  | .parse _ => "parse"
-  | .namespaceExists _ => "namespaceExists"
-  | .nameExists _ => "nameExists"
-  | .notDeployed _ => "notDeployed"
-  | .input _ => "input"
-
-def respSexp (r : Resp) : Sexp :=
-  let kind : Sexp := match r with
-    | .added _ _ => .atom "added"
-    | .status _ => .atom "status"
-    | .value _ => .atom "value"
-    | .error e => .list [.atom "error", .atom (errKind e)]
-  let wf := match Json.decode r.body with
-    | some _ => true
-    | none => false
-  .list [kind, Sexp.ofChars r.body, optJson (some r.json), Sexp.ofBool wf]
-
 /-! ### DTOs -/
 
 open Dmn.Dto in
@@ -147,6 +115,7 @@ partial def tvOf : Sexp → Option TV
     let t ← Sexp.chars? t
     pure (TV.scalar k t)
   | .list (.atom "l" :: xs) => (xs.mapM tvOf).map TV.list
+  | .list [.atom "o", t] => (Sexp.chars? t).map TV.other
   | .list (.atom "c" :: es) =>
     (es.mapM (fun (e : Sexp) => match e with
       | .list [k, v] => do
@@ -169,6 +138,7 @@ partial def tvSexp : TV → Sexp
   | .scalar k t => .list [.atom "k", .atom (kindName k), Sexp.ofChars t]
   | .list xs => .list (.atom "l" :: xs.map tvSexp)
   | .ctx es => .list (.atom "c" :: es.map (fun (k, v) => .list [Sexp.ofChars k, tvSexp v]))
+  | .other d => .list [.atom "o", Sexp.ofChars d]
 
 /-- the readers as the harness observed them: `(kind text canonical?)` rows -/
 def lookup (table : List (String × List Char × Option (List Char))) (kind : String) (t : List Char) : Option (List Char) :=
@@ -194,41 +164,82 @@ def rowOf : Sexp → Option (String × List Char × Option (List Char))
     pure (k, t, some c)
   | _ => none
 
-def jstr (s : String) : Json := .str s.toList
-def key (s : String) : List Char := s.toList
+/-- `ValueDto` as `serde_json` writes it: the model's `Dto.json` (`Dmn/Model/DtoJson.lean`). -/
+def dtoJson (d : Dmn.Dto.Dto) : Json := d.json
 
-open Dmn.Dto in
-def xsdName : XsdType → String
-  | .string => "xsd:string" | .integer => "xsd:integer" | .decimal => "xsd:decimal" | .double => "xsd:double"
-  | .boolean => "xsd:boolean" | .date => "xsd:date" | .time => "xsd:time" | .dateTime => "xsd:dateTime"
-  | .duration => "xsd:duration" | .other n => String.ofList n
+partial def jsonOf : Sexp → Option Json
+  | .atom "null" => some .null
+  | .list [.atom "b", b] => (Sexp.bool? b).map Json.bool
+  | .list [.atom "n", t] => (Sexp.chars? t).map Json.num
+  | .list [.atom "str", t] => (Sexp.chars? t).map Json.str
+  | .list (.atom "arr" :: xs) => (xs.mapM jsonOf).map Json.arr
+  | .list (.atom "obj" :: ms) =>
+    (ms.mapM (fun (e : Sexp) => match e with
+      | .list [k, v] => do
+        let k ← Sexp.chars? k
+        let v ← jsonOf v
+        pure (k, v)
+      | _ => none)).map Json.obj
+  | _ => none
 
-def optStr : Option (List Char) → Json
-  | some t => .str t
-  | none => .null
+/-- The evaluator oracle of the driver: the request carries the value a deployed model
+answers (computed by the harness from the alphabet: literal decision, echo decision,
+unknown invocable). -/
+def reqOf : Sexp → Option (Request (Sum JV Dmn.Dto.TV))
+  | .atom "clear" => some .clear
+  | .atom "deploy" => some .deploy
+  | .list [.atom "add", c] => (contentOf c).map .add
+  | .list [.atom "replace", c] => (contentOf c).map .replace
+  | .list [.atom "remove", ns, name] => do
+    let ns ← optAtom ns
+    let name ← optAtom name
+    pure (.remove ns name)
+  | .list [.atom "eval", m, i, .atom ok, v] => do
+    let m ← optAtom m
+    let i ← optAtom i
+    let v ← jvOf v
+    pure (.evaluate m i (if ok == "ok" then .ok (.inl v) else .error "input".toList))
+  | .list [.atom "tck", m, i, .atom x] => do
+    let m ← optAtom m
+    let i ← optAtom i
+    pure (.tck m i (if x == "none" then none else some (.error "input".toList)))
+  | .list (.atom "tck" :: m :: i :: .list [.atom "ok", v, ans] :: rows) => do
+    let m ← optAtom m
+    let i ← optAtom i
+    let v ← tvOf v
+    let table ← rows.mapM rowOf
+    -- `WrappedValue::try_from(input_values)` on the one input node `x`
+    match Dmn.Dto.inputContext (readersOf table) [(['x'], some (Dmn.Dto.toDto v))] with
+    | some (.ctx [(_, read)]) =>
+      match ans with
+      | .atom "echo" => pure (.tck m i (some (.ok (.inr read))))
+      | a => do
+        let a ← tvOf a
+        pure (.tck m i (some (.ok (.inr a))))
+    | _ => pure (.tck m i (some (.error "input".toList)))
+  | _ => none
 
-open Dmn.Dto in
-mutual
-/-- `ValueDto` as `serde_json` writes it (fields in declaration order, `None` as `null`). -/
-partial def dtoJson : Dto → Json
-  | .simple typ text isNil =>
-    .obj [(key "simple", .obj [(key "type", match typ with | some t => jstr (xsdName t) | none => .null),
-                               (key "text", optStr text), (key "isNil", .bool isNil)]),
-          (key "components", .null), (key "list", .null)]
-  | .components cs => .obj [(key "simple", .null), (key "components", .arr (compsJson cs)), (key "list", .null)]
-  | .list items isNil =>
-    .obj [(key "simple", .null), (key "components", .null),
-          (key "list", .obj [(key "items", .arr (listJson items)), (key "isNil", .bool isNil)])]
-  | .empty => .obj [(key "simple", .null), (key "components", .null), (key "list", .null)]
-  | .missing => .null
-partial def compsJson : DtoComps → List Json
-  | .nil => []
-  | .cons name value isNil rest =>
-    .obj [(key "name", optStr name), (key "value", dtoJson value), (key "isNil", .bool isNil)] :: compsJson rest
-partial def listJson : DtoList → List Json
-  | .nil => []
-  | .cons d rest => dtoJson d :: listJson rest
-end
+def errKind : Err → String
+  | .missingParameter _ => "missingParameter"
+  | .invalidBase64 => "invalidBase64"
+  | .invalidUtf8 => "invalidUtf8"
+  | .parse _ => "parse"
+  | .namespaceExists _ => "namespaceExists"
+  | .nameExists _ => "nameExists"
+  | .notDeployed _ => "notDeployed"
+  | .input _ => "input"
+
+def respSexp (r : Resp) : Sexp :=
+  let kind : Sexp := match r with
+    | .added _ _ => .atom "added"
+    | .status _ => .atom "status"
+    | .value _ => .atom "value"
+    | .tck _ => .atom "tck"
+    | .error e => .list [.atom "error", .atom (errKind e)]
+  let wf := match Json.decode r.body with
+    | some _ => true
+    | none => false
+  .list [kind, Sexp.ofChars r.body, optJson (some r.json), Sexp.ofBool wf]
 
 def handleDto (v : Sexp) (rows : List Sexp) : String :=
   match tvOf v, rows.mapM rowOf with
@@ -247,9 +258,38 @@ def handleDto (v : Sexp) (rows : List Sexp) : String :=
       .list [.atom "canonical", Sexp.ofBool (Dmn.Dto.canonical rd v)]])
   | _, _ => "(error bad-dto)"
 
+def deErrSexp : Dmn.Dto.DeErr → Sexp
+  | .invalidType => .atom "invalidType"
+  | .missingField f => .list [.atom "missingField", Sexp.ofChars f]
+  | .duplicateField f => .list [.atom "duplicateField", Sexp.ofChars f]
+
+def handleWire (j : Sexp) (rows : List Sexp) : String :=
+  match jsonOf j, rows.mapM rowOf with
+  | some j, some table =>
+    let rd := readersOf table
+    match Dmn.Dto.readValue j with
+    | .error e => toString (Sexp.list [.list [.atom "read", deErrSexp e], .list [.atom "back", .atom "none"],
+        .list [.atom "answer", .atom "none"], .list [.atom "body", .atom "none"]])
+    | .ok d =>
+      match Dmn.Dto.fromDto rd d with
+      | none => toString (Sexp.list [.list [.atom "read", .atom "ok"], .list [.atom "back", .atom "none"],
+          .list [.atom "answer", .atom "none"], .list [.atom "body", .atom "none"]])
+      | some v =>
+        let o := Dmn.Dto.toOutput v
+        toString (Sexp.list [.list [.atom "read", .atom "ok"], .list [.atom "back", tvSexp v],
+          .list [.atom "answer", jsonSexp (Dmn.Dto.tckJson o)], .list [.atom "body", Sexp.ofChars (Dmn.Dto.tckBody o)]])
+  | _, _ => "(error bad-wire)"
+
 def handle (args : List Sexp) : String :=
   match args with
   | .atom "dto" :: v :: rows => handleDto v rows
+  | .atom "wire" :: j :: rows => handleWire j rows
+  | [.atom "render", j] =>
+    match jsonOf j with
+    | none => "(error bad-json)"
+    | some j =>
+      let text := Json.render j
+      toString (Sexp.list [.list [.atom "text", Sexp.ofChars text], .list [.atom "decoded", optJson (Json.decode text)]])
   | [.atom "jsonify", v] =>
     match jvOf v with
     | none => "(error bad-value)"
@@ -268,7 +308,9 @@ def handle (args : List Sexp) : String :=
     match reqs.mapM reqOf with
     | none => "(error bad-request)"
     | some reqs =>
-      let ev : String → String → JV → JV := fun _ _ v => v
+      let ev : Evals (Sum JV Dmn.Dto.TV) :=
+        ⟨fun _ _ v => match v with | .inl v => v | .inr _ => .null,
+         fun _ _ v => match v with | .inr t => .ok (Dmn.Dto.toOutput t) | .inl _ => .ok none⟩
       let m := (Server.serve codec ev WS.init reqs).2
       toString (Sexp.list [.list (.atom "model" :: m.map respSexp)])
   | _ => "(error bad-request)"
